@@ -1,8 +1,242 @@
-import PharmpyModel.C19.Model
+import PharmpyProofs.C19.Lemmas
+import PharmpyModel.C19.Spec
+/-
+  C19 — Ranking, selection criteria and result statistics follow their
+  definitions.  Property theorems only.
+
+  Everything is universally quantified: every list of candidates (any
+  length), every criterion value incl. NaN, every parent map, cut-off,
+  penalty vector and every chi-square table `isf`.
+-/
 namespace Pharmpy.C19
 
-/-- placeholder replaced below -/
-theorem lrt_cutoff_zero (isf : Rat → Nat → Rat) (alpha : Rat) : lrtCutoff isf 0 alpha = 0 := by
-  simp [lrtCutoff]
+/-! ## rank_models -/
+
+/-- The filtering loop keeps an entry exactly when it is eligible in the sense
+    of the property statement, and then records criterion + penalty. -/
+theorem keep_iff_eligible (cfg : Cfg) (all : List Cand) (i : Nat) (c : Cand) (w : Rat) :
+    keep cfg all (refValue all) i c = some w ↔
+      Eligible cfg all i c ∧ ∃ v, c.rv = .num v ∧ w = v + c.pen := by
+  unfold keep Eligible
+  cases hrv : c.rv with
+  | nan => simp
+  | num v =>
+    simp only [Val.num.injEq, exists_eq_left']
+    by_cases hi : i = 0
+    · simp [hi]; grind
+    · simp only [hi, if_false, false_or]
+      cases hl : cfg.lrt with
+      | true =>
+        simp only [if_true, true_and]
+        split <;> simp_all <;> grind
+      | false =>
+        simp only [Bool.false_eq_true, if_false, false_and, false_or, true_and]
+        cases hc : cfg.cutoff with
+        | none => simp; grind
+        | two a b => simp; grind
+        | one co =>
+          cases hr : refValue all with
+          | nan => simp [Val.sub, Val.le]; grind
+          | num r =>
+            simp only [Val.sub, Val.le, decide_eq_true_eq, Cutoff.one.injEq, Val.num.injEq]
+            split
+            · rename_i hle
+              simp only [reduceCtorEq, false_iff, not_and]
+              intro hlt
+              grind
+            · rename_i hnle
+              simp only [Option.some.injEq]
+              constructor
+              · rintro rfl; exact ⟨by grind, rfl⟩
+              · rintro ⟨_, rfl⟩; rfl
+
+/-- **rank_spec (1/4) — the ranked set.**  A model has a rank in the result of
+    `rank_models` iff it is eligible: the ranked set is `{base if its strictness
+    holds} ∪ {eligible candidates}` and nothing else. -/
+theorem ranked_iff_eligible (cfg : Cfg) (all : List Cand) (i : Nat) :
+    (∃ r ∈ rankModels cfg all, r.idx = i ∧ r.rank.isSome = true) ↔
+      ∃ c, all[i]? = some c ∧ Eligible cfg all i c := by
+  unfold rankModels
+  constructor
+  · rintro ⟨r, hr, rfl, hrank⟩
+    rcases List.mem_append.mp hr with hr | hr
+    · rw [rankedRows_eq, List.mem_map] at hr
+      obtain ⟨p, hp, rfl⟩ := hr
+      have hp' := (sortDesc_perm _ _).mem_iff.mp hp
+      obtain ⟨c, hc, hk⟩ := (mem_keptOf cfg all p.1 p.2).mp hp'
+      exact ⟨c, hc, ((keep_iff_eligible cfg all p.1 c p.2).mp hk).1⟩
+    · unfold unrankedRows at hr
+      simp only [List.mem_map] at hr
+      obtain ⟨j, _, rfl⟩ := hr
+      simp at hrank
+  · rintro ⟨c, hc, he⟩
+    obtain ⟨v, hv, _⟩ := id he
+    have hk : keep cfg all (refValue all) i c = some (v + c.pen) :=
+      (keep_iff_eligible cfg all i c _).mpr ⟨he, v, hv, rfl⟩
+    have hmem : (i, v + c.pen) ∈ keptOf cfg all := (mem_keptOf cfg all i _).mpr ⟨c, hc, hk⟩
+    have hmem' := (sortDesc_perm (fun p : Nat × Rat => keyOf (refValue all) p.2) _).mem_iff.mpr hmem
+    have hrow := List.mem_map_of_mem (f := fun p : Nat × Rat =>
+        ({ idx := p.1, delta := (refValue all).sub (.num p.2), rv := .num p.2,
+           rank := some (compRank (keptOf cfg all) p.2) } : Row)) hmem'
+    rw [← rankedRows_eq] at hrow
+    exact ⟨_, List.mem_append_left _ hrow, rfl, rfl⟩
+
+/-- Every model of `models_all` has exactly one row. -/
+theorem rows_cover (cfg : Cfg) (all : List Cand) :
+    ((rankModels cfg all).map (·.idx)).Perm (List.range all.length) := by
+  have hk := keptOf_idx_nodup cfg all
+  have hsub : ∀ i ∈ (keptOf cfg all).map (·.1), i < all.length := by
+    intro i hi
+    rw [List.mem_map] at hi
+    obtain ⟨p, hp, rfl⟩ := hi
+    obtain ⟨c, hc, _⟩ := (mem_keptOf cfg all p.1 p.2).mp hp
+    obtain ⟨h, _⟩ := List.getElem?_eq_some_iff.mp hc
+    exact h
+  have h1 : ((rankedRows cfg all).map (·.idx)).Perm ((keptOf cfg all).map (·.1)) := by
+    rw [rankedRows_eq, List.map_map]
+    exact (sortDesc_perm (fun p : Nat × Rat => keyOf (refValue all) p.2) (keptOf cfg all)).map _
+  have h2 : (unrankedRows cfg all).map (·.idx)
+      = (List.range all.length).filter (fun i => !((keptOf cfg all).map (·.1)).contains i) := by
+    unfold unrankedRows
+    simp [List.map_map, Function.comp_def]
+  unfold rankModels
+  rw [List.map_append, h2]
+  refine (List.Perm.append h1 (List.Perm.refl _)).trans ?_
+  rw [List.perm_ext_iff_of_nodup]
+  · intro a
+    simp only [List.mem_append, List.mem_filter, List.mem_range, Bool.not_eq_true', List.contains_eq_mem,
+      decide_eq_false_iff_not]
+    constructor
+    · rintro (h | h)
+      · exact hsub a h
+      · exact h.1
+    · intro h
+      by_cases hm : a ∈ (keptOf cfg all).map (·.1)
+      · exact Or.inl hm
+      · exact Or.inr ⟨h, hm⟩
+  · rw [List.nodup_append]
+    refine ⟨hk, List.Pairwise.filter _ List.nodup_range, ?_⟩
+    intro a ha b hb hab
+    subst hab
+    have h2' := (List.mem_filter.mp hb).2
+    simp only [Bool.not_eq_true', List.contains_eq_mem, decide_eq_false_iff_not] at h2'
+    exact h2' ha
+  · exact List.nodup_range
+
+/-- Counting the rows that are strictly better than `x` is counting the kept models. -/
+theorem count_better (cfg : Cfg) (all : List Cand) (x : Rat) :
+    (rankModels cfg all).countP (Row.better x) = (keptOf cfg all).countP (fun q => decide (q.2 < x)) := by
+  unfold rankModels
+  rw [List.countP_append, rankedRows_eq, List.countP_map]
+  have h0 : (unrankedRows cfg all).countP (Row.better x) = 0 := by
+    rw [List.countP_eq_zero]
+    intro r hr
+    unfold unrankedRows at hr
+    simp only [List.mem_map] at hr
+    obtain ⟨j, _, rfl⟩ := hr
+    simp [Row.better]
+  rw [h0, Nat.add_zero, ← (sortDesc_perm (fun p : Nat × Rat => keyOf (refValue all) p.2) (keptOf cfg all)).countP_eq]
+  apply List.countP_congr
+  intro p _
+  simp [Row.better]
+
+/-- **rank_spec (2/4) — values and ranks.**  A ranked row reports criterion +
+    penalty, `reference − value` as delta, and its rank is the *competition rank*
+    on the criterion: one plus the number of ranked models with a strictly
+    smaller (better) value. -/
+theorem ranked_row_spec (cfg : Cfg) (all : List Cand) (r : Row) (k : Nat)
+    (hr : r ∈ rankModels cfg all) (hk : r.rank = some k) :
+    ∃ c v, all[r.idx]? = some c ∧ c.rv = .num v ∧ Eligible cfg all r.idx c ∧
+      r.rv = .num (v + c.pen) ∧ r.delta = (refValue all).sub (.num (v + c.pen)) ∧
+      k = 1 + (rankModels cfg all).countP (Row.better (v + c.pen)) := by
+  simp only [count_better]
+  unfold rankModels at hr
+  rcases List.mem_append.mp hr with hr | hr
+  · rw [rankedRows_eq, List.mem_map] at hr
+    obtain ⟨p, hp, rfl⟩ := hr
+    have hp' := (sortDesc_perm _ _).mem_iff.mp hp
+    obtain ⟨c, hc, hkeep⟩ := (mem_keptOf cfg all p.1 p.2).mp hp'
+    obtain ⟨he, v, hv, hw⟩ := (keep_iff_eligible cfg all p.1 c p.2).mp hkeep
+    simp only [Option.some.injEq] at hk
+    refine ⟨c, v, hc, hv, he, ?_, ?_, ?_⟩
+    · simp [hw]
+    · simp [hw]
+    · rw [← hk, ← hw]; rfl
+  · unfold unrankedRows at hr
+    simp only [List.mem_map] at hr
+    obtain ⟨j, _, rfl⟩ := hr
+    simp at hk
+
+/-- **Ties share a rank.** -/
+theorem ties_share_rank (cfg : Cfg) (all : List Cand) (r s : Row) (k m : Nat) (v : Rat)
+    (hr : r ∈ rankModels cfg all) (hs : s ∈ rankModels cfg all)
+    (hk : r.rank = some k) (hm : s.rank = some m) (hrv : r.rv = .num v) (hsv : s.rv = .num v) : k = m := by
+  obtain ⟨c, x, _, _, _, h4, _, h6⟩ := ranked_row_spec cfg all r k hr hk
+  obtain ⟨c', x', _, _, _, h4', _, h6'⟩ := ranked_row_spec cfg all s m hs hm
+  rw [hrv] at h4; rw [hsv] at h4'
+  simp only [Val.num.injEq] at h4 h4'
+  rw [← h4] at h6; rw [← h4'] at h6'
+  omega
+
+/-- **Ranking orders by the criterion.** A strictly smaller (better) value has a strictly smaller rank. -/
+theorem better_value_smaller_rank (cfg : Cfg) (all : List Cand) (r s : Row) (k m : Nat) (v w : Rat)
+    (hr : r ∈ rankModels cfg all) (hs : s ∈ rankModels cfg all)
+    (hk : r.rank = some k) (hm : s.rank = some m) (hrv : r.rv = .num v) (hsv : s.rv = .num w)
+    (hvw : v < w) : k < m := by
+  obtain ⟨c, x, _, _, _, h4, _, h6⟩ := ranked_row_spec cfg all r k hr hk
+  obtain ⟨c', x', _, _, _, h4', _, h6'⟩ := ranked_row_spec cfg all s m hs hm
+  rw [hrv] at h4; rw [hsv] at h4'
+  simp only [Val.num.injEq] at h4 h4'
+  rw [← h4] at h6; rw [← h4'] at h6'
+  have : (rankModels cfg all).countP (Row.better v) < (rankModels cfg all).countP (Row.better w) := by
+    apply countP_lt_of_witness _ _ _ _ r hr
+    · simp [Row.better, hrv, hvw]
+    · simp [Row.better, hrv, Rat.lt_irrefl]
+    · intro y _ hy
+      unfold Row.better at hy ⊢
+      cases hyv : y.rv with
+      | nan => simp [hyv] at hy
+      | num z => simp [hyv] at hy ⊢; grind
+  omega
+
+/-- **rank_spec (3/4) — failed never above.**  In the returned frame no row
+    without a rank (failed strictness, cut-off or test) precedes a ranked row. -/
+theorem failed_never_above (cfg : Cfg) (all : List Cand) :
+    (rankModels cfg all).Pairwise (fun a b => a.rank = none → b.rank = none) := by
+  unfold rankModels
+  rw [List.pairwise_append]
+  refine ⟨?_, ?_, ?_⟩
+  · rw [rankedRows_eq, List.pairwise_map]
+    exact List.Pairwise.imp (fun _ h => by simp at h) (List.pairwise_of_forall (fun _ _ => trivial) : List.Pairwise (fun _ _ => True) _)
+  · unfold unrankedRows
+    rw [List.pairwise_map]
+    exact List.Pairwise.imp (fun _ _ => rfl) (List.pairwise_of_forall (fun _ _ => trivial) : List.Pairwise (fun _ _ => True) _)
+  · intro a _ b hb _
+    unfold unrankedRows at hb
+    simp only [List.mem_map] at hb
+    obtain ⟨j, _, rfl⟩ := hb
+    rfl
+
+/-- **rank_spec (4/4) — row order.**  Rows are in non-decreasing order of the
+    criterion (best first). -/
+theorem rows_sorted_by_criterion (cfg : Cfg) (all : List Cand) :
+    (rankModels cfg all).Pairwise (fun a b => ∀ v w, a.rv = .num v → b.rv = .num w → v ≤ w) := by
+  unfold rankModels
+  rw [List.pairwise_append]
+  refine ⟨?_, ?_, ?_⟩
+  · rw [rankedRows_eq, List.pairwise_map]
+    refine List.Pairwise.imp ?_ (sortDesc_sorted (fun p : Nat × Rat => keyOf (refValue all) p.2) (keptOf cfg all))
+    intro a b hab v w hv hw
+    simp only [Val.num.injEq] at hv hw
+    subst hv; subst hw
+    exact (keyOf_le _ _ _).mp hab
+  · unfold unrankedRows
+    rw [List.pairwise_map]
+    exact List.Pairwise.imp (fun _ v w hv => by simp at hv) (List.pairwise_of_forall (fun _ _ => trivial) : List.Pairwise (fun _ _ => True) _)
+  · intro a _ b hb v w _ hw
+    unfold unrankedRows at hb
+    simp only [List.mem_map] at hb
+    obtain ⟨j, _, rfl⟩ := hb
+    simp at hw
 
 end Pharmpy.C19
